@@ -1453,6 +1453,7 @@ def _sentinel_task(case, unsafe=False):
             inside = buf['option'].endswith('cwd_inside')
             if inside:
                 os.chdir(root)
+            n_before = len(out['findings'])
             try:
                 del _LOG[:]
                 host0 = _host_snapshot()
@@ -1598,6 +1599,12 @@ def _sentinel_task(case, unsafe=False):
             finally:
                 if inside:
                     os.chdir(home_cwd)
+                if len(out['findings']) > n_before:
+                    # project code ran in the long-lived helper (its sys.modules now holds project packages, whose
+                    # __path__ would serve later `import pkg.sub` requests whatever sys.path is): the next buffer
+                    # starts with a fresh helper so that every buffer is an independent observation
+                    script = project = None
+                    common.drop_parent_helper()
     finally:
         try:
             os.chdir(home_cwd)
@@ -1852,6 +1859,8 @@ def run(ctx):
         'route to code execution exists is pinned by the site enumeration and searched by the sentinel stream, not proved',
         'getattr tricks / dynamically computed attribute names are outside the AST matcher',
         'calls that run under the helper\'s ambient sys.path (environment code) are assumed not to change sys.path themselves',
+        'the helper\'s sys.modules holds no project package at the start of a query (submodules are resolved through the '
+        'parent\'s __path__, not sys.path); the harness restarts the helper after any buffer in which project code ran',
         'parso (outside jedi/) unpickles its parser cache from settings.cache_directory: trusted, not project-controlled',
         'new host modules that are jedi/parso/stdlib modules imported lazily are not counted as a change of sys.modules']
     t = time.time()
